@@ -20,6 +20,10 @@ internal/adapter/balancer/priority.go
 internal/adapter/balancer/round_robin.go
 internal/adapter/balancer/least_connections.go
 internal/adapter/stats/collector.go
+internal/adapter/stats/model_collector.go
+internal/adapter/stats/translator_collector.go
+internal/adapter/security/request_rate_limit.go
+internal/adapter/discovery/repository.go
 internal/adapter/health/circuit_breaker.go
 internal/adapter/proxy/olla/service.go
 internal/adapter/unifier/circuit_breaker.go
